@@ -131,3 +131,29 @@ def run(ctx):
                 ok = any(ab.block_dominates(c, bi) for c in closes)
                 ctx.ob("R10-close", k, ok, t["sp"], "closes the pending transaction before reading history")
     ctx.floor("AutoCommit history getter call sites", n, 4)
+    # a change rebuilt from the op set hashes to the original only if its actor table is rebuilt from scratch: the collector shares one
+    # ActorMapper across all changes, so the per-change encode step resets it before an encoder's finish() fills it
+    ctx.rule("R12-mapper", "must-pass-through: ActorMapper::reset dominates every {VecEncoder, ProgressiveEncoder}::finish that receives a mapper parameter")
+    AMAP = "automerge::op_set2::change::ActorMapper"
+    n_fin = 0
+    for p, r in sorted(f.fns.items()):
+        if r["ckey"] != ("automerge", "lib"):
+            continue
+        sites = []
+        for bi, t in f.calls(r):
+            tgt = norm_fn(t.get("res") or t.get("fn")) or ""
+            if tgt in ("automerge::op_set2::change::collector::VecEncoder::finish", "automerge::op_set2::change::collector::ProgressiveEncoder::finish"):
+                sites.append((bi, t))
+        if not sites:
+            continue
+        b = cfg.body(r)
+        ctx.analysed_fns.add(p)
+        for k, (bi, t) in util.ordinal_keys(sites, lambda it: "%s|%s" % (norm_fn(p), "::".join(norm_fn(it[1].get("res") or it[1].get("fn")).split("::")[-2:]))):
+            n_fin += 1
+            marg = [a for a, ty in zip(t["args"], t["argtys"]) if util.base_ty(util.strip_refs(ty)) == AMAP]
+            mo = b.operand_origin(marg[0]) if marg else None
+            resets = [rb for rb, rt in b.calls() if norm_fn(rt.get("res") or rt.get("fn")) == AMAP + "::reset" and mo is not None and (b.operand_origin(rt["args"][0]) or (None,))[0] == mo[0]]
+            ok = bool(resets) and any(b.block_dominates(rb, bi) for rb in resets)
+            ctx.ob("R12-mapper", k, ok, t["sp"], "mapper.reset() first" if ok else
+                   "the shared ActorMapper is handed to the encoder without being reset: actors seen while encoding an earlier change leak into this change's actor table (other_actors), so the rebuilt change has different bytes and a different hash")
+    ctx.floor("encoder finish calls receiving the shared mapper", n_fin, 2)
